@@ -1,16 +1,23 @@
 (* family 9: space-packet stream parser (C13).
    900  history:  a0 = default packet ids as flat (ptype, shf, apid) triples;
                   a1 = ground truth for the oracle (ignored here);
-                  a2.. = operations: [0; chunk...] append(chunk) on the right,
+                  a2.. = operations: [0; chunk...] append(bytearray(chunk)) on the right,
+                                     [3; chunk...] append(bytes(chunk)) on the right (same model operation),
                                      [1]           parse(default ids),
                                      [2; triples]  parse(those ids).
         result: for every operation [n_packets; n_queue] followed by the
-                returned packets and the queue entries after the call.
+                returned packets and the queue entries after the call; then one line [0]:
+                the number of calls after which overwriting the caller's own chunk objects or
+                the packets already handed out changed the queue or an earlier result (the
+                model's values are values: never).
+   902  the same history through the linear-time formulation Model/ParserFast.v (proved equal:
+        Proofs/ParserFast.run_ops_fast_eq); only the parse operations are observed (large
+        backlogs: the queue is not echoed after every append); then the line [0] as for 900.
    901  one call of parse_space_packets on a given queue: a0 = ids, a1.. = queue entries
         ([0; octets...] each); result as for one operation.
    950  Spec: spec_stream on (a0 = raw 13-bit ids, a1 = buffer): [packets..., remainder] *)
 From Coq Require Import ZArith List Bool.
-From SP Require Import Base.Result Base.Bytes Run.Marshal Model.SpacePacket Model.Parser Spec.ParserSpec.
+From SP Require Import Base.Result Base.Bytes Run.Marshal Model.SpacePacket Model.Parser Model.ParserFast Spec.ParserSpec.
 Import ListNotations.
 Open Scope Z_scope.
 
@@ -23,6 +30,7 @@ Fixpoint pids_of (l : list Z) : res (list pid) :=
 Definition pop_of (dflt : list pid) (l : list Z) : res pop :=
   match l with
   | 0 :: c => Ok (Append c)
+  | 3 :: c => Ok (Append c)
   | 2 :: tr => do ids <- pids_of tr; Ok (Parse ids)
   | _ => Ok (Parse dflt)
   end.
@@ -36,12 +44,26 @@ Fixpoint pops_of (dflt : list pid) (a : args) : res (list pop) :=
 Definition obs1 (o : list bytes * queue) : args :=
   [Z.of_nat (length (fst o)); Z.of_nat (length (snd o))] :: fst o ++ snd o.
 
+Definition is_append (l : list Z) : bool :=
+  match l with 0 :: _ => true | 3 :: _ => true | _ => false end.
+
+(* the observations of the parse operations only *)
+Fixpoint parse_obs (a : args) (l : list (list bytes * queue)) : list (list bytes * queue) :=
+  match a, l with
+  | o :: a', x :: l' => if is_append o then parse_obs a' l' else x :: parse_obs a' l'
+  | _, _ => []
+  end.
+
 Definition run_parser (op : Z) (a : args) : args :=
   match op with
-  | 900 => ret (fun l => flat_map obs1 l)
+  | 900 => ret (fun l => flat_map obs1 l ++ [[0]])
              (do dflt <- pids_of (lst 0 a);
               do ops <- pops_of dflt (tl (tl a));
               run_ops [] ops)
+  | 902 => ret (fun l => flat_map obs1 (parse_obs (tl (tl a)) l) ++ [[0]])
+             (do dflt <- pids_of (lst 0 a);
+              do ops <- pops_of dflt (tl (tl a));
+              run_ops_fast [] ops)
   | 901 => ret obs1
              (do ids <- pids_of (lst 0 a);
               parse_space_packets (map (fun l => tl l) (tl a)) ids)
